@@ -71,6 +71,19 @@ fn id_of(i: usize) -> String {
 }
 
 /// Writes the workspace for this DAG. `dep_order_rev`: list dependencies descending instead of ascending.
+/// 0: a well-formed id that no buildpack of the workspace has; 1 / 2: `libcnb:` followed by something that is not a buildpack id at all
+/// (a reserved word, a character outside the id alphabet) - a dependency that cannot be resolved either way
+static DANGLING_KIND: std::sync::atomic::AtomicUsize = std::sync::atomic::AtomicUsize::new(0);
+
+fn dangling_dependency(variant: u64) -> &'static str {
+    match DANGLING_KIND.load(std::sync::atomic::Ordering::Relaxed) {
+        1 => "[[dependencies]]\nuri = \"libcnb:app\"\n",
+        2 => "[[dependencies]]\nuri = \"libcnb:vp/missing_one\"\n",
+        _ if variant >> 2 & 1 == 1 => "[[dependencies]]\nuri = \"libcnb:vp/missing.one\"\n",
+        _ => "[[dependencies]]\nuri = \"libcnb:vp/missing\"\n",
+    }
+}
+
 fn materialise(root: &Path, n: usize, adj: &[Vec<bool>], variant: u64, dangling: Option<usize>) {
     fs::create_dir_all(root).unwrap();
     for i in 0..n {
@@ -109,7 +122,7 @@ fn materialise(root: &Path, n: usize, adj: &[Vec<bool>], variant: u64, dangling:
                 }
             }
             if dangling == Some(i) {
-                pkg.push_str(if variant >> 2 & 1 == 1 { "[[dependencies]]\nuri = \"libcnb:vp/missing_one\"\n" } else { "[[dependencies]]\nuri = \"libcnb:vp/missing\"\n" });
+                pkg.push_str(dangling_dependency(variant));
             }
             fs::write(d.join("package.toml"), pkg).unwrap();
         } else if composite {
@@ -151,7 +164,7 @@ fn materialise(root: &Path, n: usize, adj: &[Vec<bool>], variant: u64, dangling:
                 }
             }
             if dangling == Some(i) {
-                pkg.push_str(if variant >> 2 & 1 == 1 { "[[dependencies]]\nuri = \"libcnb:vp/missing_one\"\n" } else { "[[dependencies]]\nuri = \"libcnb:vp/missing\"\n" });
+                pkg.push_str(dangling_dependency(variant));
             }
             pkg.push_str("[[dependencies]]\nuri = \"../some/relative/path\"\n[[dependencies]]\nuri = \"urn:cnb:registry:heroku/nodejs@1.2.3\"\n");
             fs::write(d.join("package.toml"), pkg).unwrap();
@@ -388,17 +401,20 @@ pub fn run(args: &[String]) {
         }
         let who = rng.below(n as u64) as usize;
         let root = work.join(format!("m{r}"));
+        let kind = (r / nshards % 3) as usize;
+        DANGLING_KIND.store(kind, std::sync::atomic::Ordering::Relaxed);
         materialise(&root, n, &adj, rng.below(2048), Some(who));
+        DANGLING_KIND.store(0, std::sync::atomic::Ordering::Relaxed);
         dangling_checked += 1;
         match build_libcnb_buildpacks_dependency_graph(&root) {
             Ok(_) => {
                 if tally.violations.len() < 5 {
-                    tally.violations.push(json!({"sig": "dangling-accepted", "what": format!("workspace in which n{who} depends on the unknown buildpack vp/missing was accepted"), "case": json!({"nodes": n, "dangling_in": who})}));
+                    tally.violations.push(json!({"sig": format!("dangling-accepted:{kind}"), "what": format!("workspace in which n{who} depends on {} was accepted", ["the unknown buildpack vp/missing", "`libcnb:app` (a reserved word, not a buildpack id)", "`libcnb:vp/missing_one` ('_' is not an id character)"][kind]), "case": json!({"nodes": n, "dangling_in": who, "kind": kind})}));
                 }
             }
             Err(e) => {
                 let msg = format!("{e}");
-                if !msg.contains("vp/missing") && tally.violations.len() < 5 {
+                if kind == 0 && !msg.contains("vp/missing") && tally.violations.len() < 5 {
                     tally.violations.push(json!({"sig": "dangling-unnamed", "what": format!("error for a dangling dependency does not name it: {msg}"), "case": json!({"nodes": n, "dangling_in": who})}));
                 }
             }
